@@ -344,7 +344,7 @@ class MdParserConfig:
         default=200,
         metadata={
             "validator": check_positive_int,
-            "help": "For reading speed calculations",
+            "help": "For reading speed calculations (a positive integer)",
         },
     )
 
